@@ -159,7 +159,9 @@ def build(spec: dict) -> Problem:
     for b, s in enumerate(sizes):
         levels = []
         for k in range(s):
-            if levels and spec["degenerate"] and rng.random() < 0.45:
+            if levels and spec.get("degblocks"):
+                levels.append(levels[0])
+            elif levels and spec["degenerate"] and rng.random() < 0.45:
                 levels.append(levels[int(rng.integers(0, len(levels)))])
             else:
                 levels.append(int(pool.pop()))
@@ -167,7 +169,8 @@ def build(spec: dict) -> Problem:
     if not any(E_num):
         E_num = [1] * N  # the library rejects H_0 = 0 by design: stay inside the domain
     E_im = [0] * N
-    if not hermitian and cplx:
+    herm_values = spec.get("herm_values", hermitian)
+    if not herm_values and cplx:
         # complex energies: give each distinct real level its own imaginary part
         im_of = {lv: int(rng.integers(-3, 4)) for lv in set(E_num)}
         E_im = [im_of[lv] for lv in E_num]
@@ -182,7 +185,7 @@ def build(spec: dict) -> Problem:
             term_orders.append(cands[int(idx)])
     nums = {}
     for o in term_orders:
-        nums[o] = _rand_matrix(rng, N, cplx, hermitian)
+        nums[o] = _rand_matrix(rng, N, cplx, herm_values)
     z = (0,) * n_par
 
     terms_f = {z: np.diag(np.array(E_num, float) / 2 + 1j * np.array(E_im, float) / 2).astype(complex)}
